@@ -245,7 +245,7 @@ func genDivSweep(r *hxlib.Rng, tier string) []progCase {
 	}
 	nOdd, nSigned, nOther := 1, 1, 1
 	if tier == "thorough" {
-		nOdd, nSigned, nOther = 5, 3, 8
+		nOdd, nSigned, nOther = 5, 3, 6
 	}
 	for i := 0; i < nOdd; i++ {
 		add([]string{"qr", "q", "r", "qr"}[r.Intn(4)], oddWidth(17, 63), 0, 0, "")
@@ -800,8 +800,8 @@ func divs(args []string) int {
 	lim := limits{maxGatesSim: 6000000, maxGatesPair: 60000, maxGatesLevel: 12000, maxGatesTopo: 120000, randPasses: 4, simBudget: 400e6,
 		maxInputsPair: 1 << 20, skipRawStages: true, topoBaseGMW: true, divBudget: 2e9, tier: cf.Tier}
 	if cf.Tier == "thorough" {
-		lim = limits{maxGatesSim: 40000000, maxGatesPair: 400000, maxGatesLevel: 40000, maxGatesTopo: 2500000, randPasses: 16, simBudget: 3e9,
-			maxInputsPair: 1 << 20, topoBaseGMW: true, divBudget: 60e9, tier: cf.Tier}
+		lim = limits{maxGatesSim: 40000000, maxGatesPair: 120000, maxGatesLevel: 40000, maxGatesTopo: 300000, randPasses: 16, simBudget: 3e9,
+			maxInputsPair: 1 << 20, topoBaseGMW: true, divBudget: 30e9, tier: cf.Tier}
 	}
 	// (the GMW divider's builder graph is garbage after Compile: fewer collections)
 	debug.SetGCPercent(300)
@@ -809,7 +809,7 @@ func divs(args []string) int {
 	nsweep := len(cases)
 	ngen := 2
 	if cf.Tier == "thorough" {
-		ngen = 10
+		ngen = 8
 	}
 	for i := 0; i < ngen; i++ {
 		p := genWideDiv(rng.Fork(), cf.Tier)
